@@ -17,7 +17,7 @@ from common import Suite, Violation, scratch_dir
 from jadeenv import jname, jid
 
 MODES_BY_PROP = {
-    "C01": ["plain", "plain", "plain", "busy", "resubmit"], "C02": ["plain", "plain", "busy", "local", "resubmit", "nodefaults"],
+    "C01": ["plain", "plain", "plain", "busy", "resubmit"], "C02": ["plain", "plain", "busy", "local", "resubmit", "resubmit", "nodefaults"],
     "C03": ["plain", "plain", "busy", "local"],
     "C04": ["plain", "plain", "busy", "local"], "C05": ["plain", "busy", "plain"],
     # C06 holds for ALL op sequences of the model (faults included): fault modes and resubmission get half shares
@@ -237,7 +237,10 @@ class Run:
         self.rng2 = random.Random(case["seed"] * 7919 + 13)
         self.hang_plan = self.rng2.random() < HANG_MODES.get(self.mode, 0)
         # faults mode: the single fault strikes in any round, not mostly in the first one
-        self.fault_after = self.rng2.choice([0, 0, 0, 15, 30, 60, 100, 150])
+        self.fault_after = self.rng2.choice([0, 0, 0, 0, 10, 20, 40, 70])
+        # ... and which kind of moment it prefers: any yield point of a submitter (generic), inside the two-lock section that
+        # moves a node's results (nested), in the middle of the submit phase (midround); the preferred moment may never come
+        self.fault_family = self.rng2.choice(["generic", "generic", "nested", "midround"])
         self.hangs_done = 0
         self.cancel_runs = 0
         self.node_faults = 0
@@ -532,8 +535,9 @@ class Run:
                     return ["nodelost", rng.choice(c)]
         if mode == "faults" and not self.fault_done and len(self.ops) >= self.fault_after:
             subs = [p for p in vc.live() if p.kind in ("submit", "trysubmit") and vc.enabled(p.pid)]
+            family = self.fault_family if len(self.ops) < 120 else "generic"
             nested = [p for p in subs if p.holding and p.at[0] == "ACQ"]
-            if nested and rng.random() < .25:
+            if nested and family != "midround" and rng.random() < (.35 if family == "nested" else .25):
                 # about to enter a section under two locks (moving a node's results into the consolidated file):
                 # the process dies / the filesystem fails at one of the first mutations inside it
                 p = rng.choice(nested)
@@ -546,7 +550,20 @@ class Run:
                     self.fault_kind += ".late"
                     return [self.fault_kind.split(".")[0], p.pid, 0, "late"]
                 return [self.fault_kind, p.pid, k]
-            if subs and rng.random() < .12:
+            midround = [p for p in subs if p.at[0] == "EXT" and str(p.at[1]).startswith("sbatch")]
+            if midround and family != "nested" and self.rng2.random() < (.35 if family == "midround" else .1):
+                # in the middle of the submit phase: an sbatch is about to run; the same step then writes the three files of
+                # the round's next batch, if any (config, run script, sbatch script) - with a batch already on the HPC
+                p = self.rng2.choice(midround)
+                self.fault_done = True
+                kind = self.rng2.choice(["kill", "killin", "failwrite", "failwrite", "failext"])
+                self.fault_kind = kind
+                if kind == "kill":
+                    return ["kill", p.pid]
+                if kind == "failext":
+                    return ["failext", p.pid, 1]
+                return [kind, p.pid, self.rng2.randrange(0, 3)] + self.late_flavour()
+            if subs and family == "generic" and rng.random() < .12:
                 p = rng.choice(subs)
                 self.fault_done = True
                 kind = rng.choice(["kill", "kill", "killin", "killin", "failext", "failwrite", "locktimeout", "squeue7"])
@@ -1738,6 +1755,8 @@ class SystemSuite(Suite):
         n = {"quick": 120, "thorough": 2500}[tier]
         if prop in ("C11", "C12"):
             n = {"quick": 200, "thorough": 4000}[tier]
+        if prop == "C11" and tier == "quick":
+            n = 450       # the single fault must coincide with rare moments (mid-round, later collection rounds); a case is cheap
         extra = sum(1 for m in modes if m in ADDED_MODES.get(prop, ()))
         if 0 < extra < len(modes):
             n = n * len(modes) // (len(modes) - extra)      # the other modes keep their number of cases
